@@ -510,8 +510,10 @@ def check_property(prop, tier, seed, quiet=False):
         assumptions=assumption_summary(results),
         wall_s=round(wall, 2), violations=len(violations),
     )
-    os.makedirs(EVID, exist_ok=True)
-    json.dump(ev, open(os.path.join(EVID, prop + ".json"), "w"), indent=1)
+    # evidence/<id>.json describes runs against /repo itself; runs against a scratch tree (VERIF_REPO) go elsewhere
+    evdir = EVID if os.path.realpath(X.REPO) == "/repo" else os.path.join(BUILD, "evidence_scratch")
+    os.makedirs(evdir, exist_ok=True)
+    json.dump(ev, open(os.path.join(evdir, prop + ".json"), "w"), indent=1)
     if not quiet:
         print(f"{prop}: obligations={len(obligations)} discharged={len(discharged)} known-findings={len(kf)} "
               f"violations={len(violations)} undecided={len(undecided)} wall={wall:.1f}s exit={rc}")
